@@ -813,6 +813,12 @@ func (v *View) checkC19(res *Result) {
 		if e.Kind != "ctx.state" || idx >= v.EndSeq {
 			continue
 		}
+		if v.heldAt(e.Inst, e.VT) {
+			// the library is stopped inside a call into user code of this instance (held by the
+			// harness for a stretch of virtual time), possibly between cancelling the term context
+			// and publishing the end of the term: not judged
+			continue
+		}
 		var term *Term
 		for _, t := range v.Terms[e.Inst] {
 			if t.Token == e.Token {
